@@ -180,7 +180,7 @@ func parseExposeServers(s string) ([]exposeServer, bool) {
 		cfg := strings.HasPrefix(kv[0], "cfg!")
 		kv[0] = strings.TrimPrefix(kv[0], "cfg!")
 		switch kv[0] {
-		case "socket", "packet", "stdio":
+		case "socket", "packet", "stdio", "dns", "dnstcp":
 			out = append(out, exposeServer{kind: kv[0], allow: splitList(kv[1]), cfg: cfg})
 		case "http":
 			sv := exposeServer{kind: "http", cfg: cfg}
@@ -264,6 +264,37 @@ func startExposeServer(sv exposeServer, all server.Channels) (st exposeStarted) 
 			if s.PacketConnection != nil {
 				_ = s.PacketConnection.Close()
 			}
+		}
+	case "dns", "dnstcp":
+		// a DNS tunnel endpoint (UDP or TCP) on an ephemeral port; the client is a real upstream.Dns pointed straight
+		// at it (no resolver in between), tunnel domain example.org
+		scheme, network := "dns", "udp"
+		if sv.kind == "dnstcp" {
+			scheme, network = "dns+tcp", "tcp"
+		}
+		for attempt := 0; attempt < 6; attempt++ {
+			port := freePort(network)
+			s := server.NewDnsServer()
+			s.Domain = "example.org"
+			s.Address = addr.MustParseAddress(fmt.Sprintf("%s://127.0.0.1:%d", scheme, port))
+			s.Channels = sv.allow
+			err := s.Startup(all)
+			st.err, st.listening = err != nil, server.VerifC03SocketListening(&s.SocketServer)
+			if err != nil && strings.Contains(err.Error(), "address already in use") {
+				continue
+			}
+			if st.listening {
+				a := fmt.Sprintf("127.0.0.1:%d", port)
+				st.client = func(string) upstream.Upstream {
+					q := "dns://example.org?direct=false&dns=" + a
+					if sv.kind == "dnstcp" {
+						q = "dns+tcp://example.org?direct=false&dns=" + a
+					}
+					return &upstream.Dns{Address: addr.MustParseAddress(q)}
+				}
+				st.stop = func() { _ = s.Shutdown() }
+			}
+			break
 		}
 	case "stdio":
 		s := server.NewIoServer()
@@ -594,6 +625,26 @@ func (c *exposeComp) Gen(r *Rand, tier string, emit func(op string)) {
 	// 1. one HTTP server, two websocket paths: every ordered pair of allow-lists (restricted before "all", "all"
 	//    before restricted, disjoint, overlapping, equal, one unknown name), request on each path and on a path
 	//    nobody registered
+	// several DNS tunnel endpoints in one process (the library's handler table is process-wide by default): every
+	// endpoint answers with its own allow-list
+	dnsLists := []string{"dns=ssh;dns=web"}
+	if thorough {
+		dnsLists = append(dnsLists, "dns=web;dns=ssh;dns=-", "dns=ssh;socket=web;dns=adm")
+	}
+	for _, srv := range dnsLists {
+		nsrv := len(strings.Split(srv, ";"))
+		for si := 0; si < nsrv; si++ {
+			for _, q := range []string{"ssh", "web", "adm"} {
+				if thorough || q != "adm" {
+					emit("ssh,web,adm " + srv + " " + fmt.Sprint(si) + " " + q)
+				}
+			}
+		}
+	}
+	if thorough {
+		emit("ssh,web dns=ssh 0 ssh")
+		emit("ssh,web dns=ssh 0 web")
+	}
 	// servers built by the real configuration parser (--server JSON / YAML): several endpoints with allow-lists of
 	// different lengths, restricted before and after "all", several servers in one process
 	for _, srv := range []string{
